@@ -145,3 +145,48 @@ package texttable
 //@   loop#7 decreases len(rangeslice) - rangeindex
 //@   call HeaderLineRendered before assert [header-line-aligned-as-columns-ask] forall i int :: {columnAligns[i]} 0 <= i && i < columnCount ==> columnAligns[i] == effAlign(ttab(t), i) @C04
 //@   call BodyLineRendered before assert [body-line-aligned-as-columns-ask] forall i int :: {columnAligns[i]} 0 <= i && i < columnCount ==> columnAligns[i] == effAlign(ttab(t), i) @C04
+
+//@ func Wrap
+//@   tags C10,C09,C14
+//@   requires tbl(t)
+//@   assigns new(TextTable), heap[tabular.callbackSet.renderTime], heap[tabular.callbackSet.addTime], heap[tabular.callbackSet.preCellRenderTime], heap[tabular.callbackSet.postCellRenderTime], heap[[]tabular.PropertyCallback]
+//@   ensures result != nil && fresh(result) && result.Table === t
+//@   ensures [default-decoration-is-complete] complete(result.decor) && !result.decor.isBoxless @C03
+//@   ensures [measuring-callback-registered] len(t.(*tabular.ATable).tableCellCallbacks.renderTime) == old(len(t.(*tabular.ATable).tableCellCallbacks.renderTime)) + 1 && dyn(t.(*tabular.ATable).tableCellCallbacks.renderTime[len(t.(*tabular.ATable).tableCellCallbacks.renderTime) - 1]) == type[dimensionSetter] @C10
+
+//@ func New
+//@   tags C10,C09
+//@   ensures result != nil && fresh(result) && dyn(result.Table) == type[*tabular.ATable] && WF(result.Table.(*tabular.ATable))
+
+//@ func (*TextTable).Render
+//@   tags C09,C10,C15
+//@   requires t != nil && tbl(t.Table) && ttab(t).nColumns <= 1048576
+//@   ensures [error-means-no-text] result1 != nil ==> result0 == "" @C09
+//@   ensures [table-still-wellformed] tbl(t.Table)
+//@   call RenderTo before ghost Wfailed = false
+
+//@ func Render
+//@   tags C09,C10
+//@   requires tbl(t) && t.(*tabular.ATable).nColumns <= 1048576
+//@   call Wrap after assume tbl(t)
+//@   ensures [error-means-no-text] result1 != nil ==> result0 == "" @C09
+
+//@ func RenderTo
+//@   tags C09,C10,C15
+//@   requires tbl(t) && t.(*tabular.ATable).nColumns <= 1048576
+//@   call Wrap after assume tbl(t)
+//@   requires [writer-ok] !Wfailed
+//@   ensures [failing-writer-surfaces] Wfailed ==> result != nil @C15
+
+//@ func (*TextTable).SetDecoration
+//@   tags C17,C09
+//@   requires t != nil
+//@   assigns t.decor
+//@   ensures result == t && t.decor == decor
+
+//@ func (*TextTable).SetDecorationNamed
+//@   tags C17,C19,C09
+//@   requires t != nil && !lockHeld
+//@   assigns t.decor, ghost lockHeld
+//@   ensures [named-or-empty] result0 == t && !lockHeld && t.decor == (has(decoration.registry.table, n) ? decoration.registry.table[n] : decoration.EmptyDecoration) @C17,C19
+//@   ensures [unknown-name-is-reported] (result1 != nil) <==> t.decor == decoration.EmptyDecoration @C17,C19
